@@ -1,5 +1,12 @@
 # id -> (technique, level_claimed.text, design_ref)
 CLAIMED = {
+    "C06": (
+        "exhaustive constant-table evaluation of the complement map against the IUPAC oracle (go/constant) with who-may-write value flow, SSA shape rules for Complement/Reverse/case folding (same-cell load/store identity, mirrored-index invariant by linear forms), per-iteration call counting for the reverse-complement loops, write-effect frame analysis",
+        "Decides statically the table and structure clauses of C06 for every sequence: complement_nuc_mapping has exactly the 15 IUPAC codes and U in both cases plus gap, point and star, each code maps to the code whose base set is the base-wise complement of its own, case is preserved, the special characters are fixed, the table is an involution except on U/u and is never written; "
+        "Complement stores table[seq[i]] at the index it read and returns an error for a byte outside the table; Reverse exchanges seq[i] and seq[j] with i+j = len-1 invariant while i<j; ReverseComplement applies Complement then Reverse exactly once to every row buffer of the receiver (the named-subset variant only to rows found by name, unknown names skipped), "
+        "behind a nucleotide-alphabet guard with the error propagated; ToUpper/ToLower store unicode.ToUpper/ToLower of the byte loaded from the same cell for all rows and columns; Unalign adds strings.Replace(row, GAP, \"\", -1) to a fresh container and does not write the receiver; the in-place transforms write only residues. "
+        "NOT decided: nothing about concrete data beyond these facts; an equivalent but differently shaped implementation (e.g. complement and reverse fused into one loop) is reported as undecided/violated rather than proven.",
+        "DESIGN.md §3 C06"),
     "C01": (
         "field-write ownership over the whole repository, after-X-must-Y dataflow on the CFG (name store => index rebuild, row replacement => length store; deferred calls counted), store pairing in the insertion block, control-dependence and reachability for the rejection path, override completeness from method sets, per-iteration event counting for the site-removal rebuild, linear bounds for by-index accessors and the FilterLength predicate",
         "Decides statically the index-consistency clauses of C01 for every history of operations: (1) a row name is written in place only inside seqbag/align methods, and every path from such a write to a normal return rebuilds the name index (reindex assigns a fresh map and inserts every row under its current name); "
